@@ -2725,6 +2725,10 @@ REORDERING = {'sort', 'unique', 'argsort', 'flip', 'flipud', 'fliplr', 'sorted',
               'argpartition', 'union1d', 'intersect1d', 'setdiff1d'}
 
 
+_NARROW = ('float32', 'float16', 'half', 'single', "'f4'", "'f2'", 'int32', 'int16', 'int8',
+           'uint8', 'uint16', 'uint32', "'i4'", "'i2'")
+
+
 def _reordering_in(expr):
     """First construct inside `expr` that changes the order or multiplicity of elements."""
     for x in ast.walk(expr):
@@ -2769,6 +2773,22 @@ def rule_P17(ctx, only=None, rid='P17'):
                     continue
                 src = _resolve_local(f, e.src)
                 bad = _reordering_in(src)
+                # ... and at the precision it is held at (C07_m: construction points written as
+                # float32 - a later split encloses the ROUNDED points)
+                narrow = None
+                for x in list(ast.walk(e.node)) + list(ast.walk(src)):
+                    if isinstance(x, ast.keyword) and x.arg == 'dtype' and any(
+                            t_ in unparse(x.value) for t_ in _NARROW):
+                        narrow = x.value
+                    if isinstance(x, ast.Call) and isinstance(x.func, ast.Attribute) and \
+                            x.func.attr == 'astype' and x.args and any(
+                                t_ in unparse(x.args[0]) for t_ in _NARROW):
+                        narrow = x
+                ctx.ob(rid, '%s:%s:full-precision' % (f.qualname, e.key), narrow is None, e.where,
+                       'stored in the dtype it has' if narrow is None else
+                       '`%s` narrows the value stored under %r: what is read back is a rounded '
+                       'copy (points move by ~1e-8, counters wrap), not the state that was '
+                       'written' % (unparse(narrow)[:40], e.key))
                 n += 1
                 ctx.ob(rid, '%s:%s:own-order' % (f.qualname, e.key), bad is None, e.where,
                        'written as it is held' if bad is None else
